@@ -350,6 +350,7 @@ theorem sfq_alignedExit (f0 : Frame) (T T' : List Frame) (g : GState) (hf : g.s.
     | (rename_i hx; exact hx _ _ _ _ _ rfl rfl rfl rfl rfl)
     | (rename_i hx; exact hx _ _ rfl rfl)
     | (rename_i hx _; exact hx _ _ rfl rfl)
+    | (rename_i hx _; exact hx _ _ _ rfl rfl rfl)
     | (rename_i hx; exact hx _ rfl))
 
 theorem sfq_scopedAlignedExit (f0 : Frame) (T T' : List Frame) (g : GState) (hf : g.s.frames = f0 :: T) :
